@@ -3,7 +3,8 @@
    Model: Model/Validator.v (lvs_validator + CascadeChecker of the FIXED code: own default key storage per
    instance, Ed25519 branch).  Specification: Spec/ChainSpec.v.  *)
 From NDN Require Import Base.Prelude Model.Validator Spec.ChainSpec.
-From NDN Require Import Proofs.ValidatorProofs Proofs.ValidatorHistory Proofs.ValidatorTie Proofs.ValidatorExamples.
+From NDN Require Import Proofs.ValidatorProofs Proofs.ValidatorHistory Proofs.ValidatorTie Proofs.ValidatorExamples
+  Proofs.ValidatorTrace.
 From NDN Require Generated.ValidatorConsts.
 From NDN Require Properties.C14Findings.   (* keeps the refutation witnesses checked on every run *)
 
@@ -104,6 +105,25 @@ Theorem C14_symmetric_never_accepted w t p :
   Chain w t p -> exists si, p_sig p = Some si /\ asymmetric (s_type si) = true.
 Proof. exact (chain_asymmetric w t p). Qed.
 Print Assumptions C14_symmetric_never_accepted.
+
+(* Interests sent for certificates: a prefix of the key-locator path starting at the packet, at most one per
+   unit of fuel, never for the trust anchor's name; a packet signed directly by the anchor costs no Interest
+   and leaves the key storage untouched *)
+Theorem C14_interests_sent w c fuel st p r st' tr :
+  validate w c fuel st p = (r, st', tr) ->
+  (exists m, tr = firstn m (kl_path w fuel p)) /\ ~ In (c_anchor_name c) tr /\ (length tr <= fuel)%nat.
+Proof.
+  exact (fun H => conj (trace_is_path_prefix w c fuel st p r st' tr H)
+                       (conj (trace_avoids_anchor w c fuel st p r st' tr H) (trace_length w c fuel st p r st' tr H))).
+Qed.
+Print Assumptions C14_interests_sent.
+Example C14_interests_sent_nonvacuous : kl_path ex_world 3 P = [nC; nA] /\ snd (validate ex_world cfg1 3 [] P) = [nC].
+Proof. exact ex_trace. Qed.
+
+Theorem C14_anchor_shortcut w c fuel st p cn r st' tr :
+  key_locator p = Some cn -> cn = c_anchor_name c -> validate w c fuel st p = (r, st', tr) -> tr = [] /\ st' = st.
+Proof. exact (no_interest_for_anchor w c fuel st p cn r st' tr). Qed.
+Print Assumptions C14_anchor_shortcut.
 
 (* the harness oracle is the specification: the executable decision agrees with Chain *)
 Theorem C14_oracle_sound w t fuel p b : chainb w t fuel p = Some b -> (b = true <-> Chain w t p).
